@@ -199,4 +199,71 @@ theorem bitmap_checksum_gate (packChecksum stored : Bytes) :
   unfold bitmapGate
   simp
 
+/-! ## 7. EWAH codec -/
+
+open Dulwich.Ewah in
+/-- the word layout constants (regenerated from the source) are the ones the arithmetic model assumes:
+encoder and decoder use the same shifts, the mask is 32 ones, a word is 64 ones -/
+theorem ewah_layout_wf :
+    Gen.Accel.ewahLitShiftEnc = Gen.Accel.ewahLitShiftDec ∧ Gen.Accel.ewahRunShiftEnc = Gen.Accel.ewahRunShiftDec ∧
+    Gen.Accel.ewahRunMask + 1 = 2 ^ 32 ∧ Gen.Accel.ewahRunShiftDec + 32 = Gen.Accel.ewahLitShiftDec ∧
+    allOnes + 1 = 2 ^ 64 ∧ maxLit + 1 = 2 ^ 31 := by
+  decide
+
+open Dulwich.Ewah in
+/-- `decode ∘ encode = id` on word lists: for EVERY list of words (zero runs, one runs, literals, in any
+order, any word values) shorter than 2^32 words (the width of the run-length field) and any declared
+size that is large enough. -/
+theorem ewah_words_roundtrip (ws : List Nat) (M : Nat) (hM : ws.length ≤ M) (h32 : ws.length < 2 ^ 32) :
+    decodeWords M (encodeWords ws) = .ok ws := by
+  unfold decodeWords encodeWords
+  exact encode_decode_aux maxLit M ws.length ws 0 _ (Nat.le_refl _) (Nat.le_refl _) (by omega) h32
+
+open Dulwich.Ewah in
+example : decodeWords 7 (encodeWords [0, 0, 5, allOnes, allOnes, 7, 0]) = .ok [0, 0, 5, allOnes, allOnes, 7, 0] :=
+  ewah_words_roundtrip _ 7 (by decide) (by decide)
+
+open Dulwich.Ewah in
+/-- the literal cap is only a chunking parameter: the round trip holds for every cap (so it holds for
+`MAX_LITERAL_WORDS`, and for a decoder/encoder pair that disagrees about it) -/
+theorem ewah_words_roundtrip_any_cap (mx : Nat) (ws : List Nat) (M : Nat) (hM : ws.length ≤ M)
+    (h32 : ws.length < 2 ^ 32) :
+    decodeWordsAux M (encodeWordsAux mx ws.length ws).length 0 (encodeWordsAux mx ws.length ws) = .ok ws :=
+  encode_decode_aux mx M ws.length ws 0 _ (Nat.le_refl _) (Nat.le_refl _) (by omega) h32
+
+open Dulwich.Ewah in
+/-- for ANY compressed input (hostile run lengths, literal counts, truncation) the decoder either fails or
+emits at most `M = ⌈bit_count/64⌉` words -/
+theorem ewah_decode_words_bounded (M : Nat) (cw ws : List Nat) (h : decodeWords M cw = .ok ws) :
+    ws.length ≤ M := by
+  have := decodeWordsAux_bounded M cw.length 0 cw ws (Nat.zero_le _) h
+  omega
+
+open Dulwich.Ewah in
+/-- byte level: whatever the bytes, a successful decode never sets a bit at or beyond ⌈bit_count/64⌉·64 -/
+theorem ewah_decode_bounded (data : Bytes) (bc : Nat) (ws : List Nat) (h : decode data = .ok (bc, ws)) :
+    ∀ p ∈ positions ws, p < 64 * ((bc + 63) / 64) := by
+  intro p hp
+  have hlen : ws.length ≤ (bc + 63) / 64 := by
+    unfold decode at h
+    by_cases h8 : data.length < 8
+    · rw [if_pos h8] at h
+      simp only [Except.ok.injEq, Prod.mk.injEq] at h
+      obtain ⟨rfl, rfl⟩ := h
+      simp
+    · rw [if_neg h8] at h
+      simp only at h
+      cases hd : decodeWords ((beVal (data.take 4) + 63) / 64) (readWords (beVal ((data.drop 4).take 4)) (data.drop 8)) with
+      | error e => rw [hd] at h; cases h
+      | ok w =>
+        rw [hd] at h
+        simp only [Except.ok.injEq, Prod.mk.injEq] at h
+        obtain ⟨rfl, rfl⟩ := h
+        exact ewah_decode_words_bounded _ _ _ hd
+  unfold positions at hp
+  have := (List.mem_filter.mp hp).1
+  have := List.mem_range.mp this
+  have : 64 * ws.length ≤ 64 * ((bc + 63) / 64) := Nat.mul_le_mul_left 64 hlen
+  omega
+
 end Dulwich.Props.C14
